@@ -179,7 +179,8 @@ def run(ck, facts, tier):
             # if a tuple (any arity) is given an IsFullyVisible / IsUpstream / IsLocal rule, its conditions range over ALL elements:
             # the WF rule right beside it deliberately leaves out the last element (it may be unsized) - visibility must not
             from kit import DROP_ADAPTORS
-            for i_, r_ in select_arms(ms[0], V("Tuple")):
+            # (a non-empty tuple: the arity-0 arm may state facts - the unit type has no elements)
+            for i_, r_ in select_arms(ms[0], V("Tuple", **{"0": ("const", "2")})):
                 for c in calls(ms[0]["arms"][i_]["body"]):
                     if not c.get("fn", "").endswith(("push_fact", "push_clause")) or len(c.get("args", [])) < 2:
                         continue
